@@ -216,6 +216,8 @@ class Checker:
         self.maxdepth = 0
         self.cutoffs = 0
         self.unchecked = 0
+        self.path = []          # texts of the inner nodes from the root to the current node
+        self.repeats = 0
 
     def bad(self, what, node):
         self.problems.append((what, (node.text or node.axiom or "")[:200]))
@@ -281,7 +283,17 @@ class Checker:
             return (rel.name, t)
         # inner node
         self.nodes += 1
+        again = node.text in self.path
+        cut0 = self.cutoffs
+        self.path.append(node.text)
         kids = [self.check(ch, depth + 1) for ch in node.children]
+        self.path.pop()
+        if again:
+            # the tuple is proven from itself; souffle's search is a function of the tuple, so the loop never ends: it is only
+            # reported when the branch below is in fact still open at the depth limit (a finite detour would still be a proof)
+            self.repeats += 1
+            if self.cutoffs > cut0:
+                self.bad("circular-proof: the tuple is its own premise and the branch never reaches facts", node)
         hm = re.match(r"^(%s)\(" % NAME, node.text)
         relname = hm.group(1) if hm else "?"
         atom_kids = [k for k in kids if k is not None]
@@ -340,10 +352,46 @@ class Checker:
         return (rel.name, t)
 
 
+def add_cyclic_mutual(prog, rng):
+    """relations that are mutually recursive over edge relations with cycles: a tuple is then also derivable from its own consequences,
+    and only the level annotations keep the proof search from choosing such a derivation (every tuple has a proof from facts, and that is
+    the one that has to be shown)"""
+    V, A, C = dl.Var, dl.Atom, dl.Clause
+    k = rng.randint(2, 3)                      # relations on the cycle
+    dom = rng.randint(3, 7)
+    arity = rng.choice([1, 1, 2])
+    names = ["mr_%s" % "abc"[i] for i in range(k)]
+    src = dl.Relation("mr_s", [("a%d" % j, dl.NUMBER) for j in range(arity)])
+    src.facts = sorted({tuple(rng.randint(0, dom) for _ in range(arity)) for _ in range(rng.randint(1, 2))})
+    prog.rels.append(src)
+    for i, n in enumerate(names):
+        prog.rels.append(dl.Relation(n, [("a%d" % j, dl.NUMBER) for j in range(arity)], is_output=True))
+        g = dl.Relation("mr_g%d" % i, [("a0", dl.NUMBER), ("a1", dl.NUMBER)])
+        g.facts = sorted({(rng.randint(0, dom), rng.randint(0, dom)) for _ in range(rng.randint(dom, 3 * dom))})
+        prog.rels.append(g)
+    start = rng.randrange(k)
+    hv = [V("x")] + ([V("w")] if arity == 2 else [])
+    bv = [V("y")] + ([V("w")] if arity == 2 else [])
+    prog.clauses.append(C([A(names[start], list(hv))], [A("mr_s", list(hv))]))
+    for i, n in enumerate(names):
+        prev = names[(i - 1) % k]
+        body = [A(prev, list(bv)), A("mr_g%d" % i, [V("y"), V("x")])]
+        if rng.random() < 0.3:
+            body.reverse()
+        prog.clauses.append(C([A(n, list(hv))], body))
+    if rng.random() < 0.4:
+        # a directly recursive rule next to the mutual ones
+        n = rng.choice(names)
+        prog.clauses.append(C([A(n, list(hv))], [A(n, list(bv)), A("mr_g0", [V("x"), V("y")])]))
+    prog.features.add("cyclic-mutual-%d" % k)
+
+
 def worker(arg):
     seed, souffle = arg
     rng = random.Random(seed)
     prog = progen.generate(seed, cfg_fn(rng))
+    if rng.random() < 0.4:
+        add_cyclic_mutual(prog, rng)
     text = dl.fmt_program(prog)
     rec = dict(seed=seed, hash=runner.prog_hash(text), features=sorted(prog.features), counts={})
     try:
@@ -449,7 +497,7 @@ def worker(arg):
                 cname, chk.cutoffs, height_bound, text)))
         c = rec["counts"]
         for k, v in (("proofs_checked", len(members)), ("proof_nodes", chk.nodes), ("proof_nodes_strongly_checked", chk.strong_nodes),
-                     ("proofs_depth_ge2", deep), ("depth_cutoffs", chk.cutoffs), ("nodes_not_interpretable", chk.unchecked), ("non_members_asked", len(non))):
+                     ("proofs_depth_ge2", deep), ("depth_cutoffs", chk.cutoffs), ("tuples_repeated_on_their_own_proof_path", chk.repeats), ("nodes_not_interpretable", chk.unchecked), ("non_members_asked", len(non))):
             c[k] = c.get(k, 0) + v
         deep_total += deep
     rec["nontrivial"] = deep_total >= 1
